@@ -1,0 +1,80 @@
+//go:build verif
+
+package blockstream
+
+import (
+	pbbstream "github.com/streamingfast/bstream/pb/sf/bstream/v1"
+)
+
+// Verification hooks (build tag `verif`, add-only): they expose the unexported subscription
+// machinery of Server to the correspondence harness.  No behaviour is re-implemented here: every
+// hook calls the real subscribe / unsubscribe / newSubscription / Push code.
+
+// VerifSub is an opaque handle on a real *subscription.
+type VerifSub struct{ sub *subscription }
+
+// VerifSubscribe calls the real Server.subscribe; nil when subscribe returned nil.
+func (s *Server) VerifSubscribe(burst int) *VerifSub {
+	sub := s.subscribe(burst, "verif")
+	if sub == nil {
+		return nil
+	}
+	return &VerifSub{sub: sub}
+}
+
+// VerifUnsubscribe calls the real Server.unsubscribe.
+func (s *Server) VerifUnsubscribe(v *VerifSub) { s.unsubscribe(v.sub) }
+
+// VerifAttach registers a burst-less subscription made by the real newSubscription with the given
+// channel capacity (Server.subscribe hard-codes 200 + burst), under the server's write lock like
+// subscribe does, so that PushBlock / subscription.Push can be exercised with small capacities.
+func (s *Server) VerifAttach(chanSize int) *VerifSub {
+	s.lock.Lock()
+	defer s.lock.Unlock()
+	sub := newSubscription(chanSize, s.logger.Named("sub").Named("verif"))
+	s.subscriptions = append(s.subscriptions, sub)
+	return &VerifSub{sub: sub}
+}
+
+// VerifSubscriptionCount is len(s.subscriptions) under the read lock.
+func (s *Server) VerifSubscriptionCount() int {
+	s.lock.RLock()
+	defer s.lock.RUnlock()
+	return len(s.subscriptions)
+}
+
+// VerifWindow returns the ids of the buffered blocks, oldest first; ok=false without a buffer.
+func (s *Server) VerifWindow() (ids []string, ok bool) {
+	if s.buffer == nil {
+		return nil, false
+	}
+	for _, blk := range s.buffer.AllBlocks() {
+		ids = append(ids, blk.Id)
+	}
+	return ids, true
+}
+
+// TryRecv is a non-blocking receive on the subscription channel, the consumer side of
+// Server.Blocks: got = a block was received; closed = the channel is closed and drained.
+func (v *VerifSub) TryRecv() (blk *pbbstream.Block, got bool, closed bool) {
+	select {
+	case b, ok := <-v.sub.incomingBlock:
+		if !ok {
+			return nil, false, true
+		}
+		return b, true, false
+	default:
+		return nil, false, false
+	}
+}
+
+// Chan is the receive side of the subscription channel (blocking consumers of the stress mode).
+func (v *VerifSub) Chan() <-chan *pbbstream.Block { return v.sub.incomingBlock }
+
+// Cap and Len of the subscription channel.
+func (v *VerifSub) Cap() int { return cap(v.sub.incomingBlock) }
+func (v *VerifSub) Len() int { return len(v.sub.incomingBlock) }
+
+// ClosedFlag reads the subscription's closed field (sequential use only: the field is written by
+// the producer without synchronisation with consumers).
+func (v *VerifSub) ClosedFlag() bool { return v.sub.closed }
